@@ -59,6 +59,7 @@ func vwReset(maxSubs int) {
 		vwAdapter.vmemRestore(ad)
 		vwAdapter.Calls = nil
 		vwAdapter.vmemDisarm()
+		vwAdapter.CrashSnap = nil
 		ad = vwAdapter
 	}
 	globals.hub = &Hub{
@@ -847,6 +848,7 @@ func (w *vWorld) dispatch(s *Session, msg *ClientComMessage) {
 	w.ad.vmemDisarm()
 	w.ad.CrashAfter = 0
 	w.failK = 0
+	w.crashK = 0
 }
 
 func (w *vWorld) asUidOf(s *Session, kv map[string]string) types.Uid {
